@@ -43,6 +43,9 @@ ASSUMPTIONS = [
     'solve_phase_fraction_Rashford_Rice the single-phase early exits and the end-point sign tests are modelled (sv=), the '
     'iterated root is a parameter monitored to bracket a sign change of the exact objective within 2e-6 (root=, K > 0 only); '
     'oracle: both phases non-empty => every equilibrium chemical in both and returned phi = top share within 1e-5',
+    'adjust_moisture_content with MultiStream outlets: the model works on per-chemical totals of the retentate and on the LIQUID '
+    'moisture of the permeate (what the code debits and tests); moisture the permeate holds in another phase is passive; '
+    'non-negativity is checked phase by phase on the real streams',
     'exceptions: ZeroDivisionError / FloatingPointError / ReferenceError are tolerated only from the lle / vle wrappers (external '
     'solvers; ReferenceError is retried once) and only up to 25 % of a worker\'s lle/vle calls; any exception from any other helper '
     'on an in-domain input is an oracle failure',
@@ -269,15 +272,20 @@ def op_am(d, o):
                 ms.imol['l', CHEMS[k]] = fl[k] - k_solid
                 ms.imol['s', CHEMS[k]] = k_solid
             return ms
-        r, p = mkms(R0, d.get('k_solid') or 0.0), mkms(P0)
+        r, p = mkms(R0, d.get('k_solid') or 0.0), mkms(P0, d.get('kp_other') or 0.0)
         solid0 = ([float(x) for x in r.imol['s'].to_array()], [float(x) for x in p.imol['s'].to_array()])
     ID = None if mode == 'mol' else CHEMS[k]
-    line = (f'am n={n} R={V(R0)} P={V(P0)} MW={V(MW)} k={k} mode={mode} mwc={frac(MW_WATER_LITERAL)} mc={frac(mc)} '
+    # Only the permeate's LIQUID moisture can be moved (the code debits the `('l', ID)` entry and tests that entry): what
+    # the permeate holds of the moisture chemical in another phase is a passive amount, left out of the model's P
+    # and added back for the balance; the retentate enters with its all-phase total (as in the code).
+    p_other = float(d.get('kp_other') or 0.0) if d.get('multi') else 0.0
+    P0m = [x - (p_other if i == k else 0.0) for i, x in enumerate(P0)]
+    line = (f'am n={n} R={V(R0)} P={V(P0m)} MW={V(MW)} k={k} mode={mode} mwc={frac(MW_WATER_LITERAL)} mc={frac(mc)} '
             f'strict={"none" if strict is None else int(strict)}')
     # the property's own notion of "sufficient water"
     dry = sum(MW[i] * R0[i] for i in range(n) if i != k)
     required = dry * mc / (1 - mc)
-    avail = MW[k] * (R0[k] + P0[k])
+    avail = MW[k] * (R0[k] + P0m[k])
     margin = 1e-9 * max(required, avail, 1.0)
     try:
         sep.adjust_moisture_content(r, p, mc, ID, strict)
@@ -289,9 +297,18 @@ def op_am(d, o):
         o.tags.append('am:infeasible')
         return
     R1, P1 = arr(r), arr(p)
-    o.emit(line, f'am R={V(R1)} P={V(P1)}')
+    o.emit(line, f'am R={V(R1)} P={V([x - (p_other if i == k else 0.0) for i, x in enumerate(P1)])}')
     if d.get('multi'):
         o.tags.append('am:multistream')
+        if p_other: o.tags.append('am:permeate-moisture-outside-liquid')
+        # "no negative flows unless it reports infeasibility" holds phase by phase, not only for the all-phase totals
+        for nm, ms_ in (('retentate', r), ('permeate', p)):
+            for ph in ms_.phases:
+                row = [float(x) for x in ms_.imol[ph].to_array()]
+                bad = [i for i, x in enumerate(row) if x < -1e-9 or x != x]
+                if bad:
+                    o.fail('adjust_moisture:negative-flow', f'{nm} phase {ph!r} holds {row[bad[0]]!r} of {CHEMS[bad[0]]} and no infeasibility was reported (strict={strict})')
+                    break
         if ([float(x) for x in r.imol['s'].to_array()], [float(x) for x in p.imol['s'].to_array()]) != solid0:
             o.fail('adjust_moisture:solid-row-changed', 'the solid rows of the MultiStream outlets were modified')
     # a distinct signature for the class of C20-9 (moisture chemical partly outside the liquid phase of the retentate)
@@ -733,7 +750,14 @@ def op_cs(d, o):
     n = d['n']
     tmo.settings.set_thermo(THERMO[n])
     a = mk(n, d['a'])
-    if d.get('mixed') is not None:
+    if d.get('mixed') is not None and d.get('b') is not None:
+        # both given (a unit with more than two products): the mixed stream is the reference, `b` is one more product
+        m, b = mk(n, d['mixed']), mk(n, d['b'])
+        res = sep.chemical_splits(a, b, m) if d.get('positional') else sep.chemical_splits(a, b=b, mixed=m)
+        mixed = list(d['mixed'])
+        line = f'cs n={n} a={V(d["a"])} b={V(d["b"])} mixed={V(mixed)}'
+        o.tags.append('cs:b-and-mixed')
+    elif d.get('mixed') is not None:
         m = mk(n, d['mixed'])
         res = sep.chemical_splits(a, mixed=m)
         mixed = list(d['mixed'])
@@ -1176,8 +1200,17 @@ def gen_op(rng):
             P[k] = math.ceil(max(need - R[k], 0) * 16 + 1) / 16 + dy(rng, 64, 3)
         strict = rng.choice([None, True, False, False])
         d = dict(n=n, R=R, P=P, k=k, mode=mode, mc=mc, strict=strict, multi=int(rng.random() < 0.25))
-        if MOISTURE_OUTSIDE_LIQUID and d['multi'] and R[k] > 0 and rng.random() < 0.4:
+        MW_ = MWS[n]
+        need = sum(MW_[i] * R[i] for i in range(n) if i != k) * mc / (1 - mc) / MW_[k]        # target amount in the retentate
+        if MOISTURE_OUTSIDE_LIQUID and d['multi'] and R[k] > 0 and need >= R[k] and rng.random() < 0.4:
             d['k_solid'] = R[k] / 4            # a quarter of the retentate's moisture chemical sits in the solid phase
+        if d['multi'] and rng.random() < 0.45:
+            # the permeate holds moisture outside its liquid phase; its LIQUID moisture is near what must be moved
+            move = max(need - R[k], 0.0)
+            liquid = round(move * rng.choice([0.5, 0.9, 0.999, 1.0, 1.001, 1.25, 2.0]) * 64) / 64
+            other = round((move + dy(rng, 64, 3) + 0.25) * 64) / 64          # enough to keep the all-phase total >= 0
+            P[k] = liquid + other
+            d['P'] = P; d['kp_other'] = other
         return 'am ' + json.dumps(d)
     if r < 0.70:                                      # lle wrapper
         n = max(n, 2)
@@ -1202,9 +1235,15 @@ def gen_op(rng):
     if r < 0.90:                                      # chemical_splits
         a = flows(rng, n, 0.3)
         other = flows(rng, n, 0.3, at_least_one=False)
-        if rng.random() < 0.5:
+        q = rng.random()
+        if q < 0.35:
             return 'cs ' + json.dumps(dict(n=n, a=a, b=other))
-        return 'cs ' + json.dumps(dict(n=n, a=a, mixed=[x + y for x, y in zip(a, other)]))
+        if q < 0.7:
+            return 'cs ' + json.dumps(dict(n=n, a=a, mixed=[x + y for x, y in zip(a, other)]))
+        # b AND mixed: mixed holds a third product on top of a + b (sometimes nothing more)
+        third = flows(rng, n, 0.3, at_least_one=False) if rng.random() < 0.8 else [0.0] * n
+        return 'cs ' + json.dumps(dict(n=n, a=a, b=other, mixed=[x + y + z for x, y, z in zip(a, other, third)],
+                                       positional=int(rng.random() < 0.5)))
     if r >= 0.96:                                     # material_balance, balance='composition'
         n = max(n, 2)
         k = rng.randrange(1, min(n, 3) + 1)
